@@ -67,7 +67,13 @@ Definition script := list action.
 
 Inductive lkind := KLua | KGo.          (* a Lua function, or a Go LGFunction (L.PreloadModule) *)
 Record loader := mkLoader { lk : lkind; lscript : script }.
-Inductive fcontent := FScript (sc : script) | FBroken.   (* a Lua file / a file that does not parse *)
+(* a Lua file / a file that does not parse / an entry that exists (stat succeeds) but cannot be
+   opened for reading (mode 000 for a non-root user, a unix socket) *)
+Inductive fcontent := FScript (sc : script) | FBroken | FUnreadable.
+
+(* Lua 5.1 loadlib.c readable(): the candidate can be opened for reading *)
+Definition readable (c : option fcontent) : bool :=
+  match c with Some FUnreadable | None => false | Some _ => true end.
 
 Inductive origin := OPre | OFile (d : Z).
 Inductive tried := TPre (n : name) | TPath (d : Z) (n : name).
@@ -134,15 +140,16 @@ Definition loLoaderPreload (s : state) (n : name) : sres :=
   | Some l => SFun OPre (lk l) (lscript l)
   end.
 
-(* loFindFile: first directory of package.path where the file exists (os.Stat), else the messages *)
+(* loFindFile: first directory of package.path where the file can be opened, else the messages
+   (an unreadable candidate is listed and skipped, as Lua 5.1's findfile does) *)
 Fixpoint loFindFile (fs : Z -> name -> option fcontent) (n : name) (p : list Z) (msgs : list tried)
   : (Z * fcontent) + list tried :=
   match p with
   | [] => inr msgs
   | d :: r =>
     match fs d n with
+    | Some FUnreadable | None => loFindFile fs n r (msgs ++ [TPath d n])
     | Some c => inl (d, c)
-    | None => loFindFile fs n r (msgs ++ [TPath d n])
     end
   end.
 
@@ -151,6 +158,7 @@ Definition loLoaderLua (s : state) (n : name) : sres :=
   | inr msgs => SMsg msgs
   | inl (d, FScript sc) => SFun (OFile d) KLua sc
   | inl (d, FBroken) => SRaise (ESyntax d n)
+  | inl (d, FUnreadable) => SRaise (ESyntax d n)   (* not reachable: loFindFile skips it *)
   end.
 
 Definition loLoaders : list (state -> name -> sres) := [loLoaderPreload; loLoaderLua].
@@ -399,7 +407,7 @@ Definition touches_loaded (a : action) : bool :=
   match a with SetLoaded _ | Module => true | _ => false end.
 
 Definition fcontent_guarded (c : fcontent) : bool :=
-  match c with FScript sc => guarded sc | FBroken => true end.
+  match c with FScript sc => guarded sc | _ => true end.
 
 Definition state_guarded (s : state) : Prop :=
   (forall n l, preload s n = Some l -> guarded (lscript l) = true) /\
